@@ -72,6 +72,18 @@ func (c *Ctx) compactors() []compactor {
 			for _, in := range b.Instrs {
 				call := isBuiltinCall(in, "copy")
 				if call == nil {
+					// the same move written as Data = append(Data[:0], Data[δ:]...)
+					if ap := isBuiltinCall(in, "append"); ap != nil && len(ap.Call.Args) == 2 {
+						d0, okD := ap.Call.Args[0].(*ssa.Slice)
+						s0, okS := ap.Call.Args[1].(*ssa.Slice)
+						if okD && okS && d0.Low == nil && d0.High != nil && isConstZero(d0.High) && s0.Low != nil && s0.High == nil {
+							p1, ok1 := recvPath(fn, d0.X)
+							p2, ok2 := recvPath(fn, s0.X)
+							if ok1 && ok2 && p1 == "Data" && p2 == "Data" {
+								out = append(out, compactor{fn, ap, s0.Low})
+							}
+						}
+					}
 					continue
 				}
 				dp, ok1 := recvPath(fn, call.Call.Args[0])
@@ -238,6 +250,9 @@ func ruleShrinkSafe(c *Ctx) {
 					if sl, ok := st.Val.(*ssa.Slice); ok && sl.Low == nil && sl.High == k.Copy {
 						okData = true
 					}
+					if st.Val == ssa.Value(k.Copy) && isBuiltinCall(k.Copy, "append") != nil {
+						okData = true // append(Data[:0], Data[δ:]...) is copy + re-slice in one
+					}
 				case "Off":
 					offTouched = true
 				}
@@ -297,9 +312,19 @@ func ruleShrinkSafe(c *Ctx) {
 					okZero = false
 				}
 				fits := false
+				// the request: the total size handed in, or the extra bytes handed in plus len(Data)
+				var reqs []Lin
 				if len(fn.Params) >= 2 {
+					reqs = append(reqs, fi.lin(fn.Params[1]))
+					for _, dl := range fi.atomsWithSuffix(".Data)") {
+						if strings.HasPrefix(dl, "len(") && !strings.Contains(dl, "@") {
+							reqs = append(reqs, fi.lin(fn.Params[1]).add(linAtom(dl)))
+						}
+					}
+				}
+				for _, rq := range reqs {
 					for _, bs := range fi.atomsWithSuffix(".BufferSize") {
-						if fi.proveLE0(fi.lin(fn.Params[1]).sub(linAtom(bs)), w.conds, nil, map[string]bool{}, 0) {
+						if fi.proveLE0(rq.sub(linAtom(bs)), w.conds, nil, map[string]bool{}, 0) {
 							fits = true
 						}
 					}
@@ -313,8 +338,10 @@ func ruleShrinkSafe(c *Ctx) {
 						for _, in := range sb.Instrs {
 							if st, isSt := in.(*ssa.Store); isSt {
 								if p, okp := recvPath(fn, st.Addr); okp && lastField(p) == "BufferSize" {
-									if fi.proveLE0(fi.lin(fn.Params[1]).sub(fi.lin(st.Val)), w.conds, nil, map[string]bool{}, 0) {
-										fits = true
+									for _, rq := range reqs {
+										if fi.proveLE0(rq.sub(fi.lin(st.Val)), w.conds, nil, map[string]bool{}, 0) {
+											fits = true
+										}
 									}
 								}
 							}
@@ -688,6 +715,19 @@ func ruleRemainder(c *Ctx) {
 				// starts at 0 and advances by exactly the inner count
 				if sl, isSl := stripSliceHigh(arg); isSl && sl.Low != nil {
 					ok = c.cursorAdvances(fi, rl.Loop, sl.Low, k) && c.unmodifiedParamPath(fn, sl.X)
+				}
+				if !ok {
+					// the chunk may be clamped afterwards (q := p[c:]; if len(q) > m { q = q[:m] }): the
+					// remainder is taken from the parameter at the cursor somewhere in the loop
+					for b := range rl.Loop.Blocks {
+						for _, in := range b.Instrs {
+							if sl, isSl := in.(*ssa.Slice); isSl && sl.Low != nil && c.cursorAdvances(fi, rl.Loop, sl.Low, k) && c.unmodifiedParamPath(fn, sl.X) {
+								if _, isParam := sl.X.(*ssa.Parameter); isParam {
+									ok = true
+								}
+							}
+						}
+					}
 				}
 			}
 			c.check(ok, key, rl.Inner.Pos(), "remainder p = p[k:] with k the inner count (or a cursor into p advanced by k)", "the retry does not continue with p[k:] for the count k accepted by the inner Write")
